@@ -2,6 +2,7 @@
 #include "../../runtime/util.h"
 #include <array>
 #include <string>
+#include <stdexcept>
 #include <string_view>
 #include <cctype>
 #include <vector>
@@ -137,13 +138,21 @@ namespace sqf::parser::sqf
                     // Check if line comment start
                     if (len_ident_match(iter, "#line"))
                     {
-                        iter += 6;
+                        iter += 5;
+                        if (iter != m_end) { ++iter; }
 
                         // Read in line num
                         auto start = iter;
                         for (; iter != m_end && *iter != '\n' && *iter != ' '; iter++);
                         std::string str_tmp(start, iter);
-                        m_line = static_cast<size_t>(std::stoul(str_tmp));
+                        try
+                        {
+                            m_line = static_cast<size_t>(std::stoul(str_tmp));
+                        }
+                        catch (const std::logic_error&)
+                        {
+                            // malformed or out-of-range line number: keep the current line
+                        }
 
                         // Try skip to file
                         iter += len_match<' ', '\t'>(iter);
